@@ -15,6 +15,10 @@ def monitor(out):
     tag = f"{spec['opt']}" + (f"|population={pop}" if pop is not None else "")
     for r in real["records"]:
         c = r["spec"]
+        if r["exc"] is not None and type(r["exc"]).__name__ == "StepTimeout":
+            from . import drvcommon as D
+            D.SKIPPED_RAISES.append(f"{tag}: watchdog (C08)")
+            break
         if r["exc"] is not None:
             import traceback
             tb = traceback.extract_tb(r["exc"].__traceback__)
